@@ -445,3 +445,55 @@ static U32V ascii_prefix(unsigned n)
     for (unsigned i = 0; i < n; ++i) p.push_back('a' + i % 26);
     return p;
 }
+
+// ---- position sweep: what a scanner does with a unit must not depend on how much well-formed text it has already
+// skipped (block-wise pre-scans, unrolled loops, counters, internal buffers of 16 / 32 / 64 / 256 units)
+inline void add_position_sweep(vf::Plan &plan, unsigned K, RunOpts ro)
+{
+    struct Pat {
+        ref::Enc enc;
+        U32V units;
+    };
+    static const std::vector<Pat> PATS = {
+        {ref::E8, {0x80}}, {ref::E8, {0xC3}}, {ref::E8, {0xE2, 0x82}}, {ref::E8, {0xF0, 0x9F, 0x98}}, {ref::E8, {0xC0, 0xAF}},
+        {ref::E8, {0xED, 0xA0, 0x80}}, {ref::E8, {0xF4, 0x90, 0x80, 0x80}}, {ref::E8, {0xFF}}, {ref::E8, {0xE2, 0x28}},
+        {ref::E8, {0xC3, 0xA9}}, {ref::E8, {0xE2, 0x82, 0xAC}}, {ref::E8, {0xF0, 0x9F, 0x98, 0x80}},
+        {ref::E16, {0xD800}}, {ref::E16, {0xDC00}}, {ref::E16, {0xDC00, 0xD800}}, {ref::E16, {0xD83D, 0xDE00}}, {ref::E16, {0xFFFF}},
+        {ref::E32, {0x110000}}, {ref::E32, {0xD800}}, {ref::E32, {0xFFFFFFFFu}}, {ref::E32, {0x1F600}},
+        {ref::EL1, {0x41}}, {ref::EL1, {0x80}}, {ref::EL1, {0xFF}}};
+    static const unsigned SUF[3] = {0, 1, 7};
+    auto mk = [](uint64_t i, unsigned K, ref::Enc &enc) {
+        unsigned off = (unsigned)vf::take(i, K + 1), suf = SUF[vf::take(i, 3)], fill = (unsigned)vf::take(i, 2);
+        const Pat &p = PATS[vf::take(i, PATS.size())];
+        enc = p.enc;
+        U32V s;
+        // filler: ASCII, or (fill == 1) U+00E9 in the source encoding (two bytes in UTF-8, one byte >= 0x80 in Latin-1)
+        for (unsigned k = 0; k < off; ++k) {
+            if (fill && p.enc == ref::E8) {
+                if (k + 1 < off) {
+                    s.push_back(0xC3);
+                    s.push_back(0xA9);
+                    ++k;
+                } else
+                    s.push_back('a');
+            } else
+                s.push_back(fill ? 0xE9 : 'a' + k % 26);
+        }
+        for (uint32_t u : p.units) s.push_back(u);
+        for (unsigned k = 0; k < suf; ++k) s.push_back('z');
+        return s;
+    };
+    plan.stage(strf("position sweep: %zu well-formed / malformed units behind 0..%u units of filler (ASCII, U+00E9), 0/1/7 units after, all routes",
+                    PATS.size(), K),
+               (uint64_t)(K + 1) * 3 * 2 * PATS.size(),
+               [=](uint64_t i, Ctx &c) {
+                   ref::Enc enc;
+                   U32V s = mk(i, K, enc);
+                   run_case(c, enc, s, ro);
+               },
+               [=](uint64_t i) {
+                   ref::Enc enc;
+                   U32V s = mk(i, K, enc);
+                   return show_units(enc, s);
+               });
+}
